@@ -93,10 +93,17 @@ def generate(rng, tier):
                     lines.append("SB 0 %s 0 %d" % (hx(p), rng.randint(0, 1)))
                 elif o.ty == "sec" and (o.flags & MULTI) and (o.flags & TITLE):
                     lines.append("AT 0 %s %s" % (hx(p), hx(rng.choice(titles))))
-            if ctxflags & COMMENTS and rng.random() < 0.5 and allo:
-                p, o = rng.choice(allo)
-                if "|" not in p and o.ty != "sec":
-                    lines.append("SC 0 %s %s" % (hx(p), hx(rng.choice([b"note", b"two words", b"a\nb", b"*", b"x / y", b"p */ t", b"#x */ y = 1", b"a\n*/ b", b"ends *"]))))
+            if ctxflags & COMMENTS and allo:
+                # annotations, multi-line ones too, on options at the top and inside single sections (printed indented there):
+                # they are part of the text that must settle after one cycle
+                decl = dict(allo)
+                for _a in range(rng.randint(0, 3)):
+                    p, o = rng.choice(allo)
+                    parts = p.split("|")
+                    anc = [decl["|".join(parts[:i + 1])] for i in range(len(parts) - 1)]
+                    if o.ty != "sec" and all(a.ty == "sec" and not (a.flags & (MULTI | gen.KEYSTRVAL)) for a in anc):
+                        lines.append("SC 0 %s %s" % (hx(p), hx(rng.choice([b"note", b"two words", b"a\nb", b"*", b"x / y", b"p */ t", b"#x */ y = 1", b"a\n*/ b", b"ends *",
+                                                                          b"line one\n  line two\nthree", b"first\n\nthird\n  "]))))
             lines += ["D 0", "PR 0", "X 1 %d" % ctxflags, "PP 0 1", "D 1", "PR 1", "X 2 %d" % ctxflags, "PP 1 2", "PR 2"]
             cases.append(Case("r%d" % n, lines, {"ctxflags": ctxflags, "null_over_default": nulls}))
             n += 1
